@@ -9,6 +9,7 @@ line on stdout (last line).  Everything the real engine writes goes under `root`
 case     {"spec": <turnrig world spec>, "sde": "0" | None (SOURCE_DATE_EPOCH set / unset),
           "turns": [{"agent","text","now_ms","now", "now_shape": str|none|absent, "now_ms_shape": int|float|callable|none}, ..]}
 variant  {"clock": {"kind": "real"|"const"|"creep"|"jump"|"back"|"chaos", "t0": float, "step": float, "seed": int},
+          "order": "pool" (real thread pool) | "fwd" | "rev" | "shuf:<seed>"  (prescribed completion order of every fan-out),
           "warm": 0|1|2   (number of warm-up executions of the same turn list, each on FRESH state objects and a
                            fresh scratch sub-directory, in the same interpreter BEFORE the measured execution)}
 
@@ -105,6 +106,74 @@ def install_clock(spec: dict) -> None:
     _dt.date = AdvDate
 
 
+def install_order(order: str) -> None:
+    """Thread-order stream: replace the pool used by `clematis.engine.util.parallel.run_parallel` (T1 and T2 fan-out)
+    by an executor that COMPLETES the submitted tasks one at a time in a prescribed order — "fwd" submission order,
+    "rev" the opposite, "shuf:<seed>" a seeded permutation — each task on its own freshly started thread.
+    `run_parallel` submits every task before it asks for the first result, so the whole fan-out is queued and then
+    drained in the prescribed order."""
+    if not order or order == "pool":
+        return
+    import threading
+    from concurrent.futures import Future
+    from harness import core as _core  # noqa: F401
+    par = __import__("clematis.engine.util.parallel", fromlist=["x"])
+
+    class _Fut(Future):
+        def __init__(self, owner):
+            super().__init__()
+            self._owner = owner
+
+        def result(self, timeout=None):
+            self._owner._drain()
+            return super().result(timeout)
+
+    class OrderedExecutor:
+        def __init__(self, max_workers=None, thread_name_prefix="", **_kw):
+            self._q = []
+            self._prefix = thread_name_prefix or "ordered"
+
+        def __enter__(self):
+            return self
+
+        def __exit__(self, *exc):
+            self._drain()
+            return False
+
+        def submit(self, fn, *a, **k):
+            f = _Fut(self)
+            self._q.append((f, fn, a, k))
+            return f
+
+        def shutdown(self, wait=True, **_kw):
+            self._drain()
+
+        def _drain(self):
+            q, self._q = self._q, []
+            idx = list(range(len(q)))
+            if order == "rev":
+                idx.reverse()
+            elif order.startswith("shuf:"):
+                st = (int(order[5:]) * 2654435761 + 99991) & 0x7FFFFFFF
+                for i in range(len(idx) - 1, 0, -1):
+                    st = (st * 1103515245 + 12345) & 0x7FFFFFFF
+                    j = st % (i + 1)
+                    idx[i], idx[j] = idx[j], idx[i]
+            for i in idx:
+                f, fn, a, k = q[i]
+
+                def body(f=f, fn=fn, a=a, k=k):
+                    try:
+                        f.set_result(fn(*a, **k))
+                    except BaseException as e:  # noqa: BLE001
+                        f.set_exception(e)
+                t = threading.Thread(target=body, name=f"{self._prefix}_{i}")
+                t.start()
+                t.join()
+
+    par.ThreadPoolExecutor = OrderedExecutor
+
+
 def _hexfiles(d: Path, root: Path, pattern: str) -> dict:
     out = {}
     rb = str(root).encode()
@@ -177,6 +246,7 @@ def main(argv) -> int:
         return 0
     variant = job.get("variant", {})
     install_clock(variant.get("clock", {}))
+    install_order(variant.get("order", "pool"))
     root = Path(job["root"])
     os.environ["CI"] = "true"
     os.environ["CLEMATIS3_VERIF"] = "1"
